@@ -205,6 +205,11 @@ func (x *Exec) oblige(kind, name string, guard, goal Term, detail string, pos to
 		}
 	}
 	if safety && x.nosafety {
+		// not proved (stated in the evidence), but execution only continues past the point
+		// if it did not panic there: what follows may rely on it
+		if x.inSpec == 0 {
+			x.assume(mkImp(guard, goal))
+		}
 		return
 	}
 	full := mkImp(guard, goal)
